@@ -70,4 +70,197 @@ theorem storage_invariant (rd : Rnd) (ops : List Op) : ∀ (s : QState),
     | some w => simp
     | none => simp [h1]
 
+/-! ## several quantizers and caller-owned variables -/
+
+@[simp] theorem setAt_same {α : Type} (f : ℕ → α) (i : ℕ) (a : α) : setAt f i a i = a := by
+  simp [setAt]
+
+@[simp] theorem setAt_other {α : Type} (f : ℕ → α) (i j : ℕ) (a : α) (h : j ≠ i) :
+    setAt f i a j = f j := by
+  simp [setAt, h]
+
+/-- one system step, seen from quantizer `b`: the resolved single-quantizer operation, or nothing -/
+theorem sys_step_q (rd : Rnd) (s : Sys) (m : MOp) (b : ℕ) :
+    (s.step rd m).q b =
+      match m.resolve s b with
+      | some op => ((s.q b).step rd op).1
+      | none => s.q b := by
+  cases m with
+  | «local» i op =>
+    by_cases h : i = b
+    · subst h; simp [Sys.step, MOp.resolve]
+    · simp [Sys.step, MOp.resolve, h, setAt_other _ _ _ _ (Ne.symm h)]
+  | updateFromCaller i k =>
+    by_cases h : i = b
+    · subst h; simp [Sys.step, MOp.resolve, QState.step]
+    · simp [Sys.step, MOp.resolve, h, setAt_other _ _ _ _ (Ne.symm h)]
+  | updateFromQuant i j =>
+    by_cases h : i = b
+    · subst h
+      simp only [Sys.step, MOp.resolve, if_true, setAt_same]
+      cases (s.q j).store <;> simp [QState.step, QState.updateFromAttr]
+    · simp [Sys.step, MOp.resolve, h, setAt_other _ _ _ _ (Ne.symm h)]
+  | assign k v => simp [Sys.step, MOp.resolve]
+
+theorem resolve_none_of_target (s : Sys) (m : MOp) (b : ℕ) (h : m.target ≠ some b) :
+    m.resolve s b = none := by
+  cases m <;> simp_all [MOp.target, MOp.resolve]
+
+/-- frame, one step: an operation addressed to another quantizer — or to a caller's variable —
+    leaves quantizer `b` (its storage kind, its value, built, use_variables) exactly as it was -/
+theorem sys_step_frame (rd : Rnd) (s : Sys) (m : MOp) (b : ℕ) (h : m.target ≠ some b) :
+    (s.step rd m).q b = s.q b := by
+  rw [sys_step_q, resolve_none_of_target s m b h]
+
+theorem sys_run_frame (rd : Rnd) (b : ℕ) (ms : List MOp) : ∀ s : Sys,
+    (∀ m ∈ ms, m.target ≠ some b) → (Sys.run rd s ms).q b = s.q b := by
+  induction ms with
+  | nil => intro s _; rfl
+  | cons m ms ih =>
+    intro s h
+    simp only [Sys.run]
+    rw [ih (s.step rd m) (fun m' hm' => h m' (by simp [hm'])), sys_step_frame rd s m b (h m (by simp))]
+
+/-- only the caller's own `assign` changes a caller's variable -/
+theorem sys_step_w (rd : Rnd) (s : Sys) (m : MOp) (k : ℕ) (h : m.assigns ≠ some k) :
+    (s.step rd m).w k = s.w k := by
+  cases m with
+  | assign k' v =>
+    have : k ≠ k' := fun e => h (by simp [MOp.assigns, e])
+    simp [Sys.step, setAt_other _ _ _ _ this]
+  | _ => simp [Sys.step]
+
+theorem sys_run_w (rd : Rnd) (k : ℕ) (ms : List MOp) : ∀ s : Sys,
+    (∀ m ∈ ms, m.assigns ≠ some k) → (Sys.run rd s ms).w k = s.w k := by
+  induction ms with
+  | nil => intro s _; rfl
+  | cons m ms ih =>
+    intro s h
+    simp only [Sys.run]
+    rw [ih (s.step rd m) (fun m' hm' => h m' (by simp [hm'])), sys_step_w rd s m k (h m (by simp))]
+
+/-- the interleaved history acts on quantizer `b` exactly like its own projected history -/
+theorem sys_run_proj (rd : Rnd) (b : ℕ) (ms : List MOp) : ∀ s : Sys,
+    (Sys.run rd s ms).q b = QState.run rd (s.q b) (proj rd b s ms) := by
+  induction ms with
+  | nil => intro s; rfl
+  | cons m ms ih =>
+    intro s
+    simp only [Sys.run, proj]
+    rw [ih (s.step rd m), sys_step_q]
+    cases m.resolve s b <;> simp [QState.run]
+
+/-- an interleaved history in which nothing is addressed to `b` projects to the empty history -/
+theorem proj_nil_of_frame (rd : Rnd) (b : ℕ) (ms : List MOp) : ∀ s : Sys,
+    (∀ m ∈ ms, m.target ≠ some b) → proj rd b s ms = [] := by
+  induction ms with
+  | nil => intro s _; rfl
+  | cons m ms ih =>
+    intro s h
+    simp only [proj]
+    rw [resolve_none_of_target s m b (h m (by simp))]
+    exact ih (s.step rd m) (fun m' hm' => h m' (by simp [hm']))
+
+/-- every float32 variable in the system holds a float32 value -/
+def Sys.WF (rd : Rnd) (s : Sys) : Prop :=
+  (∀ k, rd.r32 (s.w k) = s.w k) ∧ ∀ i v, (s.q i).store = .var v → rd.r32 v = v
+
+def MOp.WF (rd : Rnd) : MOp → Prop
+  | .local _ op => Op.WF rd op
+  | _ => True
+
+theorem resolve_wf (rd : Rnd) (s : Sys) (hs : s.WF rd) (m : MOp) (hm : m.WF rd) (b : ℕ) (op : Op)
+    (h : m.resolve s b = some op) : Op.WF rd op := by
+  cases m with
+  | «local» i o =>
+    simp only [MOp.resolve] at h
+    split at h
+    · cases h; exact hm
+    · cases h
+  | updateFromCaller i k =>
+    simp only [MOp.resolve] at h
+    split at h
+    · cases h; exact hs.1 k
+    · cases h
+  | updateFromQuant i j =>
+    simp only [MOp.resolve] at h
+    split at h
+    · cases h
+      cases hj : (s.q j).store with
+      | var v => simpa [Op.WF] using hs.2 j v hj
+      | py v => simp [Op.WF]
+    · cases h
+  | assign k v => simp [MOp.resolve] at h
+
+theorem qstep_var_wf (rd : Rnd) (hid : ∀ x, rd.r32 (rd.r32 x) = rd.r32 x) (st : QState)
+    (hst : ∀ v, st.store = .var v → rd.r32 v = v) (op : Op) (hop : Op.WF rd op) :
+    ∀ v, ((st.step rd op).1).store = .var v → rd.r32 v = v := by
+  intro v hv
+  cases op with
+  | build b =>
+    cases b
+    · simp only [QState.step, QState.build, Bool.false_eq_true, if_false] at hv; exact hst v hv
+    · simp only [QState.step, QState.build, if_true, Store.var.injEq] at hv
+      subst hv
+      cases hs : st.store with
+      | py u => simp [Store.asF, hid]
+      | var u => simpa [Store.asF] using hst u hs
+  | update u =>
+    simp only [QState.step, QState.update] at hv
+    cases hs : st.store with
+    | py _ => simp [hs] at hv
+    | var _ => simp only [hs, Store.var.injEq] at hv; subst hv; exact hid u
+  | updateFromVar u =>
+    simp only [QState.step, QState.updateFromVar] at hv
+    cases hs : st.store with
+    | py _ => simp [hs] at hv
+    | var _ => simp only [hs, Store.var.injEq] at hv; subst hv; exact hop
+  | setUseVars b => simp only [QState.step] at hv; exact hst v hv
+  | call =>
+    simp only [QState.step, QState.call] at hv
+    split at hv
+    · exact hst v hv
+    · cases hb : st.useVars
+      · simp only [QState.build, hb, Bool.false_eq_true, if_false] at hv; exact hst v hv
+      · simp only [QState.build, hb, if_true, Store.var.injEq] at hv
+        subst hv
+        cases hs : st.store with
+        | py u => simp [Store.asF, hid]
+        | var u => simpa [Store.asF] using hst u hs
+
+theorem sys_step_wf (rd : Rnd) (hid : ∀ x, rd.r32 (rd.r32 x) = rd.r32 x) (s : Sys) (hs : s.WF rd)
+    (m : MOp) (hm : m.WF rd) : (s.step rd m).WF rd := by
+  constructor
+  · intro k
+    cases m with
+    | assign k' v =>
+      by_cases h : k = k'
+      · subst h; simp [Sys.step, hid]
+      · simp [Sys.step, setAt_other _ _ _ _ h, hs.1 k]
+    | _ => simpa [Sys.step] using hs.1 k
+  · intro i v hv
+    rw [sys_step_q] at hv
+    cases hr : m.resolve s i with
+    | none => rw [hr] at hv; exact hs.2 i v hv
+    | some op =>
+      rw [hr] at hv
+      exact qstep_var_wf rd hid (s.q i) (hs.2 i) op (resolve_wf rd s hs m hm i op hr) v hv
+
+theorem proj_wf (rd : Rnd) (hid : ∀ x, rd.r32 (rd.r32 x) = rd.r32 x) (b : ℕ) (ms : List MOp) :
+    ∀ s : Sys, s.WF rd → (∀ m ∈ ms, m.WF rd) → ∀ op ∈ proj rd b s ms, Op.WF rd op := by
+  induction ms with
+  | nil => intro s _ _ op hop; simp [proj] at hop
+  | cons m ms ih =>
+    intro s hs hms op hop
+    have hm := hms m (by simp)
+    have ih' := ih (s.step rd m) (sys_step_wf rd hid s hs m hm) (fun m' hm' => hms m' (by simp [hm']))
+    simp only [proj] at hop
+    cases hr : m.resolve s b with
+    | none => rw [hr] at hop; exact ih' op hop
+    | some o =>
+      rw [hr] at hop
+      rcases List.mem_cons.mp hop with h | h
+      · subst h; exact resolve_wf rd s hs m hm b _ hr
+      · exact ih' op h
+
 end QKV.QNoise
